@@ -306,6 +306,16 @@ impl MixWorld {
 		}
 	}
 
+	pub fn set_send_volume(&mut self, i: usize, db: f32, dur: f64) {
+		if i >= self.sends.len() {
+			return;
+		}
+		if let Some(h) = self.sends[i].handle.as_mut() {
+			h.set_volume(db, tween(dur));
+			self.sends[i].volume.set(Decibels(db), dur, Easing::Linear, SM::Imm);
+		}
+	}
+
 	/// change the volume of route `r` (index into the node's route table) of node i
 	pub fn set_node_route(&mut self, i: usize, r: usize, db: f32, dur: f64) {
 		if r >= self.nodes[i].routes.len() {
